@@ -419,7 +419,7 @@ Proof.
   - cbn [fst set_running tasks]. rewrite ctl_after_park. apply naex_idle.
   - destruct k as [| |c].
     + rewrite ctl_ret. apply naex_idle.
-    + destruct inc; [rewrite ctl_ret; apply naex_idle|].
+    + destruct inc; [rewrite ctl_ret; apply naex_idle|]. destruct (ckif_spins _ _ _); [|rewrite ctl_ret; apply naex_idle].
       cbn [blocked fst set_running bare_yield call_soon set_ready tasks]. unfold s. rewrite incs_ctl, Ec.
       intros g0 w exc. split; discriminate.
     + destruct (scope_exit s c t inc) as [s1 x]. destruct x; rewrite ctl_ret; apply naex_idle.
